@@ -45,8 +45,9 @@ Record cache := mkCache {
   c_sorted : list region;               (* ascending by start key, start keys distinct *)
   c_regions : list (verid * bytes);     (* mu.regions: verid -> the entry (named by its start key) *)
   c_latest : list (N * (N * N));        (* mu.latestVersions: id -> (ver, conf) *)
-  c_sepochs : list (N * N) }.           (* Store.epoch per store id (absent = 0): bumped by a send failure *)
-Definition empty_cache := mkCache [] [] [] [].
+  c_sepochs : list (N * N);             (* Store.epoch per store id (absent = 0): bumped by a send failure *)
+  c_tomb : list N }.                    (* stores the cache knows to be tombstones (resolve state tombstone: no address) *)
+Definition empty_cache := mkCache [] [] [] [] [].
 
 (* ---- small assoc helpers ---- *)
 Fixpoint lat_get (id : N) (l : list (N * (N * N))) : option (N * N) :=
@@ -164,7 +165,7 @@ Definition insert_region (c : cache) (r : region) : bool * cache :=
     else
       let r1 := inherit r deleted in
       let '(regs, lat) := fold_left (fun acc d => remove_version (r_verid d) (fst acc) (snd acc)) deleted (c_regions c, c_latest c) in
-      (true, mkCache (ins_sorted r1 l1) (reg_set (r_verid r1) (r_start r1) regs) (lat_set (r_id r1) (r_ver r1, r_conf r1) lat) (c_sepochs c)).
+      (true, mkCache (ins_sorted r1 l1) (reg_set (r_verid r1) (r_start r1) regs) (lat_set (r_id r1) (r_ver r1, r_conf r1) lat) (c_sepochs c) (c_tomb c)).
 
 (* newRegion records the current fail-epoch of every peer's store; the model does it when the fresh region is handed
    to the cache (nothing can happen in between) *)
@@ -188,7 +189,7 @@ Definition get_by_verid (c : cache) (v : verid) : option region :=
   match reg_get v (c_regions c) with Some s => entry_at c s v | None => None end.
 Definition upd_entry (c : cache) (r : region) (f : region -> region) : cache :=
   mkCache (map (fun x => if bytes_eqb (r_start x) (r_start r) && verid_eqb (r_verid x) (r_verid r) then f x else x) (c_sorted c))
-          (c_regions c) (c_latest c) (c_sepochs c).
+          (c_regions c) (c_latest c) (c_sepochs c) (c_tomb c).
 
 Definition set_flags (rl pe rd : region -> bool) (r : region) : region :=
   mkRegion (r_id r) (r_start r) (r_end r) (r_ver r) (r_conf r) (r_peers r) (r_work r) (r_expired r) (r_reason r) (rl r) (pe r) (rd r) (r_sepochs r) (r_bk r).
@@ -651,7 +652,8 @@ Definition rpc_ctx (c : cache) (v : verid) : option (region * peer) * cache :=
   | Some r =>
       if r_reload r || r_expired r then (None, c)
       else let p := nth (r_work r) (r_peers r) (0, 0) in
-           if store_epoch (c_sepochs c) (snd p) =? nth (r_work r) (r_sepochs r) 0 then (Some (r, p), c)
+           if existsb (N.eqb (snd p)) (c_tomb c) then (None, upd_entry c r (invalidate_r 4)) (* no address: StoreNotFound *)
+           else if store_epoch (c_sepochs c) (snd p) =? nth (r_work r) (r_sepochs r) 0 then (Some (r, p), c)
            else (None, upd_entry c r (invalidate_r 5))
   | None => (None, c)
   end.
@@ -670,7 +672,7 @@ Definition on_send_fail (c : cache) (v : verid) (idx : nat) (reload : bool) : ca
       let f := fun x => let x1 := if Nat.eqb (r_work x) idx then set_work (Nat.modulo (S idx) (length (r_peers x))) x else x in
                         if reload then set_reload x1 else x1 in
       let c1 := upd_entry c r f in
-      mkCache (c_sorted c1) (c_regions c1) (c_latest c1) se'
+      mkCache (c_sorted c1) (c_regions c1) (c_latest c1) se' (c_tomb c1)
   end.
 
 (* OnRegionEpochNotMatch: (retry-after-back-off?, cache) *)
@@ -699,7 +701,7 @@ Definition on_epoch_not_match (c : cache) (v : verid) (ctx_store : N) (cur : lis
 Definition gc (c : cache) : cache :=
   let dead := filter r_expired (c_sorted c) in
   let '(regs, lat) := fold_left (fun acc d => remove_version (r_verid d) (fst acc) (snd acc)) dead (c_regions c, c_latest c) in
-  mkCache (map (fun r => if r_ready r then r else if r_pending r then set_ready r else r) (filter (fun r => negb (r_expired r)) (c_sorted c))) regs lat (c_sepochs c).
+  mkCache (map (fun r => if r_ready r then r else if r_pending r then set_ready r else r) (filter (fun r => negb (r_expired r)) (c_sorted c))) regs lat (c_sepochs c) (c_tomb c).
 
 (* ---- buckets ---- *)
 Definition set_bk (b : option (N * list bytes)) (r : region) : region :=
@@ -767,3 +769,11 @@ Definition update_buckets (pd : nat -> pd_req -> pd_ans) (budget t : nat) (c : c
         end
       else (c, t)
   end.
+
+(* Store.reResolve on one store, as the periodic store check runs it: when PD reports the store removed / tombstone its
+   fail-epoch is bumped (every cached region that recorded the old epoch is stale from now on) and it loses its address *)
+Definition re_resolve (c : cache) (st : N) (removed : bool) : cache :=
+  if removed then
+    mkCache (c_sorted c) (c_regions c) (c_latest c) (se_set st (store_epoch (c_sepochs c) st + 1) (c_sepochs c))
+            (if existsb (N.eqb st) (c_tomb c) then c_tomb c else st :: c_tomb c)
+  else c.
